@@ -468,3 +468,36 @@ pub async fn validates_without_parent(b: &Block, cfg: &Cfg) -> bool {
         Err(_) => false,
     }
 }
+
+
+/// The commitment a header must carry for a list of (generated) transactions, computed by the harness itself (the
+/// construction of `Saito/Model/Merkle.lean`): one leaf per transaction — its signed-content hash, repeated
+/// `txs_replacements` times for an omitted subtree —, leaves paired left to right, an odd node carried up unchanged;
+/// the empty list commits to the all-zero root. Independent of `Block::generate_merkle_root`.
+pub fn ref_merkle_root(txs: &[Transaction]) -> SaitoHash {
+    let mut level: Vec<SaitoHash> = vec![];
+    for t in txs {
+        let h = t.hash_for_signature.unwrap_or([0; 32]);
+        let n = if t.txs_replacements > 1 { t.txs_replacements as usize } else { 1 };
+        for _ in 0..n {
+            level.push(h);
+        }
+    }
+    if level.is_empty() {
+        return [0; 32];
+    }
+    while level.len() > 1 {
+        let mut next = vec![];
+        for pair in level.chunks(2) {
+            if pair.len() == 2 {
+                let mut v = pair[0].to_vec();
+                v.extend_from_slice(&pair[1]);
+                next.push(saito_core::core::util::crypto::hash(&v));
+            } else {
+                next.push(pair[0]);
+            }
+        }
+        level = next;
+    }
+    level[0]
+}
